@@ -95,25 +95,41 @@ func TestC04AddressTakeover(t *testing.T) { addressTakeover(t, "C04.address_take
 func TestC01AddressTakeover(t *testing.T) { addressTakeover(t, "C01.address_takeover") }
 
 func addressTakeover(t *testing.T, sub string) {
-	ev.Rule(sub, "rapid: P2PKE or QUIC over UDP on 127.0.0.1. Slot A is an observer with key 0; slot X is a UDP port held in turn by nodes with keys 1, 2, 1, ... (take-over: the holder is closed and a node with another key binds the same port). 2-14 generated operations: tell/ask A->X naming the current holder's identity or a previous holder's, tell/ask X->A, take-over. Every payload names the key of its real sender and the key it is addressed to. Oracle inside every callback: Src's identity is the fingerprint of the real sender's key; LookupPublicKeyInHandler(Src) is that key; a payload addressed to identity K is delivered only to a node holding K. non-trivial = a take-over followed by traffic in both directions; distinct by (kind, operation list)")
+	ev.Rule(sub, "rapid: P2PKE or QUIC over UDP on 127.0.0.1. Slot A is an observer with key 0; slot X is a UDP port held in turn by nodes with keys 1, 2, 1, ... (take-over: the holder is closed and a node with another key binds the same port). Generated histories: 0-3 tells/asks with the first holder, then 1-2 take-overs each followed by tells/asks A->X naming the current holder's identity or the previous holder's and tells/asks X->A (both directions after every take-over). Every payload names the key of its real sender and the key it is addressed to. Oracle inside every callback: Src's identity is the fingerprint of the real sender's key; LookupPublicKeyInHandler(Src) is that key; a payload addressed to identity K is delivered only to a node holding K. non-trivial = a take-over followed by traffic in both directions; distinct by (kind, operation list)")
 	rapid.Check(t, func(t *rapid.T) {
 		kind := rapid.SampledFrom([]string{"p2pke", "p2pke", "quic"}).Draw(t, "kind")
-		nOps := rapid.IntRange(2, 14).Draw(t, "ops")
 		type op struct {
 			what string // a2x | a2x-old | x2a | takeover
 			ask  bool
 		}
 		var ops []op
 		var descs []string
-		for i := 0; i < nOps; i++ {
-			o := op{what: rapid.SampledFrom([]string{"a2x", "a2x", "a2x-old", "x2a", "x2a", "takeover"}).Draw(t, "what")}
-			o.ask = kind == "quic" && o.what != "takeover" && rapid.Bool().Draw(t, "ask")
+		add := func(what string) {
+			o := op{what: what}
+			o.ask = kind == "quic" && what != "takeover" && rapid.Bool().Draw(t, "ask")
 			ops = append(ops, o)
-			d := o.what
+			d := what
 			if o.ask {
 				d += ":ask"
 			}
 			descs = append(descs, d)
+		}
+		// phases: traffic with the first holder, a take-over, traffic in both directions with the new holder
+		// (A speaks first, so that A's state for the address is replaced before the new holder's messages arrive),
+		// possibly a second take-over back to the first key
+		for i, n := 0, rapid.IntRange(0, 3).Draw(t, "before"); i < n; i++ {
+			add(rapid.SampledFrom([]string{"a2x", "x2a"}).Draw(t, "what"))
+		}
+		for round, rounds := 0, rapid.IntRange(1, 2).Draw(t, "takeovers"); round < rounds; round++ {
+			add("takeover")
+			if rapid.IntRange(0, 3).Draw(t, "oldFirst") == 0 {
+				add("a2x-old")
+			}
+			add("a2x")
+			for i, n := 0, rapid.IntRange(1, 4).Draw(t, "after"); i < n; i++ {
+				add(rapid.SampledFrom([]string{"x2a", "x2a", "a2x", "a2x-old"}).Draw(t, "what"))
+			}
+			add("x2a")
 		}
 		desc := fmt.Sprintf("%s ops=[%s]", kind, strings.Join(descs, " "))
 
